@@ -173,6 +173,8 @@ def _run_all(fx):
     engines.cursor_offset_pairs(r, fns)
     engines.sorted_precondition(r, fns, {})
     engines.signed_difference_compares(r, fns)
+    engines.use_after_move(r, fns)
+    engines.copies_within_source(r, fns)
     import p09
     for f in fns:
         for l, c in p09._reversing_loops(f):
